@@ -11,6 +11,7 @@ def _install():
     from crosshair.libimpl import relib
     from crosshair.libimpl.builtinslib import AnySymbolicStr, LazyIntSymbolicStr, SymbolicInt
     import re._parser as sp
+    from crosshair.util import CrossHairValue
 
     # ---- 1. relib: IGNORECASE mask of a literal must escape the literal ---------------------------
     def unicode_ignorecase_mask(cp):
@@ -25,6 +26,21 @@ def _install():
             relib._UNICODE_IGNORECASE_MASKS[cp] = mask
         return mask
     relib.unicode_ignorecase_mask = unicode_ignorecase_mask
+
+    # ---- 1b. relib: a NEGATIVE look-behind with fewer characters before it than its width succeeds
+    #           (stock relib returns "no match" for both polarities when offset - width < 0)
+    _orig_imp = relib._internal_match_patterns
+
+    def _imp(top_patterns, flags, string, offset, allow_empty=True, ord=ord, chr=chr):
+        if len(top_patterns) > 0:
+            op, arg = top_patterns[0]
+            if op is relib.ASSERT_NOT and arg[0] == -1:
+                minw, maxw = arg[1].getwidth()
+                if minw == maxw and offset - minw < 0:
+                    return _imp(top_patterns[1:], flags, string, offset, allow_empty, ord=ord, chr=chr)
+        return _orig_imp(top_patterns, flags, string, offset, allow_empty, ord=ord, chr=chr)
+    if not os.environ.get('SYMX_NO_IMP'):
+        relib._internal_match_patterns = _imp
 
     # ---- 2. CPython's regex parser: set membership / hashing realises symbolic characters -------------
     sp.DIGITS = tuple("0123456789")
@@ -46,9 +62,42 @@ def _install():
         return out
     sp._uniq = _uniq
 
+    # ---- 2b. str.isidentifier on symbolic text: exact XID tables read from the interpreter instead of realisation -------
+    import z3 as _z3
+
+    def _intervals(pred):
+        iv = []
+        for c in range(0x110000):
+            if pred(c):
+                if iv and iv[-1][1] == c - 1:
+                    iv[-1][1] = c
+                else:
+                    iv.append([c, c])
+        return [(a, b) for a, b in iv]
+    _ID_START = _intervals(lambda c: chr(c).isidentifier())
+    _ID_CONT = _intervals(lambda c: ("a" + chr(c)).isidentifier())
+
+    def _sym_isidentifier(self):
+        n = realize(len(self))
+        if n == 0:
+            return False
+        space = context_statespace()
+        for i in range(n):
+            cp = ord(self[i])
+            with NoTracing():
+                tbl = _ID_START if i == 0 else _ID_CONT
+                if isinstance(cp, int) and not isinstance(cp, CrossHairValue):
+                    ok = any(a <= cp <= b for a, b in tbl)
+                else:
+                    v = SymbolicInt._coerce_to_smt_sort(cp)
+                    ok = space.smt_fork(_z3.Or(*[_z3.And(v >= a, v <= b) if a != b else v == a for a, b in tbl]))
+                if not ok:
+                    return False
+        return True
+    AnySymbolicStr.isidentifier = _sym_isidentifier
+
     # ---- 3. format(): do not realise symbolic ints / objects that format as str(obj) -------------------
     from crosshair.libimpl import builtinslib as bl
-    from crosshair.util import CrossHairValue
     orig_format = core._PATCH_REGISTRATIONS[format]
 
     def fmt(obj, format_spec=""):
@@ -89,18 +138,198 @@ def _install():
     import pregex.core.pre as pre
     import pregex.core.classes as classes
 
+    class _CompiledStub:
+        pass
+
+    def _widths(sub):
+        for op, av in sub:
+            if op in (sp.ASSERT, sp.ASSERT_NOT):
+                d, p = av
+                if d < 0:
+                    lo, hi = p.getwidth()
+                    if lo != hi:
+                        raise re.error("look-behind requires fixed-width pattern")
+                _widths(p)
+            elif op is sp.SUBPATTERN:
+                _widths(av[3])
+            elif op is sp.BRANCH:
+                for p in av[1]:
+                    _widths(p)
+            elif op in (sp.MAX_REPEAT, sp.MIN_REPEAT):
+                _widths(av[2])
+            elif op is sp.GROUPREF_EXISTS:
+                _widths(av[1])
+                if av[2] is not None:
+                    _widths(av[2])
+
+    class NdSet:
+        """list-backed set: equality instead of hashing, so symbolic strings stay symbolic (insertion order)"""
+        __slots__ = ("items",)
+
+        def __init__(self, it=()):
+            self.items = []
+            for x in it:
+                self.add(x)
+
+        def add(self, x):
+            for y in self.items:
+                if y == x:
+                    return
+            self.items.append(x)
+
+        def __iter__(self):
+            return iter(list(self.items))
+
+        def __len__(self):
+            return len(self.items)
+
+        def __contains__(self, x):
+            for y in self.items:
+                if y == x:
+                    return True
+            return False
+
+        def union(self, *others):
+            r = NdSet(self.items)
+            for o in others:
+                for x in o:
+                    r.add(x)
+            return r
+
+        def difference(self, *others):
+            r = NdSet()
+            for x in self.items:
+                keep = True
+                for o in others:
+                    for y in o:
+                        if y == x:
+                            keep = False
+                            break
+                    if not keep:
+                        break
+                if keep:
+                    r.items.append(x)
+            return r
+
+        def issuperset(self, other):
+            for x in other:
+                if x not in self:
+                    return False
+            return True
+
+        def __eq__(self, other):
+            return len(self) == len(other) and self.issuperset(other)
+
+        def __repr__(self):
+            return "NdSet(%r)" % (self.items,)
+
+        def __class_getitem__(cls, item):
+            return cls                      # set[str] in annotations evaluated at run time
+
+    def _is_sym(x):
+        with NoTracing():
+            return isinstance(x, AnySymbolicStr)
+
+    class _FlatMatch:
+        """match object whose group texts are flat symbolic strings (slices with symbolic bounds crash CrossHair's ord())"""
+
+        def __init__(self, m):
+            self._m = m
+
+        def group(self, *a):
+            r = self._m.group(*a)
+            if isinstance(r, tuple):
+                return tuple(flatten(x) if x is not None else None for x in r)
+            return flatten(r) if r is not None else None
+
+        def groups(self, *a):
+            return tuple(flatten(x) if x is not None else None for x in self._m.groups(*a))
+
+        def __getattr__(self, n):
+            return getattr(self._m, n)
+
+    # relib explores alternation-inside-repeat incompletely when a later alternative of an EARLIER iteration is needed
+    # (it reported "no match" for  \((?:[^()]|\\[()])+\)  on  (?:\(x)  ). The one internal regex of pregex with that shape is
+    # rewritten to the equivalent form that tries the escaped parenthesis first (same language; the body can never consume an
+    # unescaped parenthesis, so the match found is the same). The equivalence is part of the trusted base and is exercised by
+    # the per-path concolic self-validation (a wrong type inference changes the emitted text).
+    _REWRITE = {
+        r"(?:(?<!\\)\()(?:[^\(\)]|\\(?:\(|\)))+(?:(?<!\\)\))": r"(?:(?<!\\)\()(?:\\(?:\(|\))|[^\(\)])+(?:(?<!\\)\))",
+    }
+
+    def _rw(pattern):
+        return _REWRITE.get(pattern, pattern)
+
     class ReShim:
+        """`re` as seen by pregex.core.pre / pregex.core.classes. Concrete subjects go to the real `re`. Symbolic subjects use
+        CrossHair's model of re (relib, with the fixes above) for single matches; findall / sub / subn / split are rebuilt on
+        finditer (relib realises findall, and its subn re-searches the remaining slice, losing look-behind context)."""
+
         def __getattr__(self, name):
             return getattr(re, name)
 
+        def compile(self, pattern, flags=0):
+            if not _is_sym(pattern):
+                return re.compile(pattern, flags)
+            # symbolic pattern text: re.compile's verdict = the real parser's verdict + the look-behind width rule
+            tree = sp.parse(pattern, flags)
+            _widths(tree)
+            return _CompiledStub()
+
+        def finditer(self, pattern, string, flags=0):
+            if not _is_sym(string):
+                return re.finditer(pattern, string, flags)
+            return (_FlatMatch(m) for m in re.finditer(pattern, string, flags))
+
         def findall(self, pattern, string, flags=0):
+            if not _is_sym(string):
+                return re.findall(pattern, string, flags)
             rx = re.compile(pattern, flags)
             if rx.groups:
                 raise NotImplementedError("findall shim: pattern with groups")
             return [flatten(m.group(0)) for m in re.finditer(pattern, string, flags)]
+
+        def split(self, pattern, string, maxsplit=0, flags=0):
+            if not _is_sym(string):
+                return re.split(pattern, string, maxsplit=maxsplit, flags=flags)
+            rx = re.compile(pattern, flags)
+            if rx.groups or maxsplit:
+                raise NotImplementedError("split shim")
+            out, pos = [], 0
+            for m in re.finditer(pattern, string, flags):
+                out.append(flatten(string[pos:m.start()]))
+                pos = m.end()
+            out.append(flatten(string[pos:]))
+            return out
+
+        def sub(self, pattern, repl, string, count=0, flags=0):
+            return self.subn(pattern, repl, string, count, flags)[0]
+
+        def subn(self, pattern, repl, string, count=0, flags=0):
+            if not _is_sym(string) or os.environ.get('SYMX_RELIB_SUB'):
+                return re.subn(pattern, repl, string, count=count, flags=flags)
+            out, pos, n = "", 0, 0
+            for m in re.finditer(_rw(pattern), string, flags):
+                if count and n >= count:
+                    break
+                if callable(repl):
+                    r = repl(_FlatMatch(m))
+                elif chr(92) not in repl:
+                    r = repl
+                elif repl == chr(92) * 2:
+                    r = chr(92)
+                else:
+                    raise NotImplementedError("sub shim: template %r" % (repl,))
+                out = out + string[pos:m.start()] + r
+                pos = m.end()
+                n += 1
+            out = out + string[pos:]
+            return flatten(out), n
+
     shim = ReShim()
     pre._re = shim
     classes._re = shim
+    classes.set = NdSet
 
     P = pre.Pregex
     orig_escape = P._Pregex__escape
